@@ -68,7 +68,7 @@ def case_patch(draw, tier):
     return dict(mesh=desc, elem=d_el, k=k, problem=problem, polys=[draw(poly(d, deg)) for _ in range(ncomp)],
                 dpicks=draw(st.lists(st.integers(0, 10**4), min_size=1, max_size=10)), allD=draw(st.integers(0, 3)) == 0,
                 setup=draw(st.sampled_from(['arrays', 'arrays', 'named_parts', 'named_parts_union', 'named_then_refined'])),
-                parts=draw(st.integers(0, 2)) == 0,
+                parts=draw(st.integers(0, 2)) == 0, served=draw(st.integers(0, 2)) == 0,
                 lam=draw(st.sampled_from([1.0, 0.5, 2.0])), mu=draw(st.sampled_from([1.0, 0.25, 3.0])), c0=draw(st.sampled_from([1.0, 0.5, 4.0])))
 
 
@@ -84,6 +84,15 @@ def body_patch(c, ctx):
     m = build_mesh(desc)
     d = m.dim()
     problem = c['problem']
+    if c.get('served'):
+        # the mesh object has served before: its tables were looked at and copies were derived from it and thrown away
+        _ = m.facets, m.t2f, m.f2t
+        if kind in ('tri', 'tet') and desc['cls'].endswith('1'):
+            m.oriented()
+        if kind != 'wedge' and m.nelements <= 6:
+            m.refined()
+        m.translated(tuple([0.5] * d))
+        ctx.cls('mesh_served_before')
     lab = ge.label(c['elem'])
     P = [to_poly(pd, d) for pd in c['polys']]
     e = build_element(c['elem'])
@@ -281,6 +290,15 @@ def body_patch(c, ctx):
         E0 = float(np.sqrt(abs(Functional(err).assemble(hb, uh=hb.interpolate(y0)))))
         if not E0 <= 1e-8 * Nn / min(1.0, hmin):
             ctx.fail('patch_test_all_dirichlet', f'{lab}: H1 error {E0:.3e} with the whole boundary constrained through enforce', **sig)
+    el = basis.elem
+    if (facet_ok and problem != 'elasticity' and len(Nfac) == 0 and el.nodal_dofs == 1 and el.facet_dofs == 0 and el.edge_dofs == 0
+            and el.interior_dofs == 0 and np.array_equal(basis.nodal_dofs[0], np.arange(m.nvertices))):
+        # vertex-based spaces: the unknowns taken from the mesh (DOF number = vertex number), as many of the examples do
+        ctx.cls('unknowns_from_mesh_nodes')
+        ym = solve(*condense(K, f, x=uD, I=m.interior_nodes()))
+        if not np.allclose(ym, y, rtol=0, atol=1e-7 * (1 + np.abs(y).max()) / min(1.0, hmin)):
+            ctx.fail('unknowns_from_mesh_nodes', f'{lab}: condensing to I = mesh.interior_nodes() differs from condensing with D = all boundary '
+                     f'DOFs by {np.abs(ym - y).max():.3e} (vertex 0 interior: {0 not in set(m.boundary_nodes().tolist())})', **sig)
     info = ge.R[c['elem']['cls']]
     if info['nodal'] and problem != 'elasticity' and hasattr(basis, 'doflocs'):
         vals = exact(basis.doflocs)
